@@ -346,6 +346,22 @@ def rule_blockbody(s, fname_patterns):
 
 LOOP_KW = re.compile(r'\b(for|while|do)\b')
 
+def collect_loopdefs(s):
+    """VERIF_LOOP_CONTRACT(function, k, contract text) in a harness expands (after cpp, so harness
+    macros are usable) to __VERIF_LOOPDEF(function, k, text); collected here and removed."""
+    loops = {}
+    out = []; pos = 0
+    for m in re.finditer(r'__VERIF_LOOPDEF\s*\(', s):
+        op = m.end() - 1
+        cl = match_close(s, op, '(', ')')
+        inner = s[op + 1:cl]
+        a = inner.index(','); b = inner.index(',', a + 1)
+        loops['%s#%s' % (inner[:a].strip(), inner[a + 1:b].strip())] = inner[b + 1:].strip()
+        out.append(s[pos:m.start()]); pos = cl + 1
+        if s[pos:pos + 1] == ';': pos += 1
+    out.append(s[pos:])
+    return ''.join(out), loops
+
 def rule_loops(s, loops):
     """inject side-car loop contracts.  key: 'function#k' = k-th loop keyword (for/while/do;
     the `while` closing a do-while is not counted) in that function's body in the sliced text."""
@@ -485,7 +501,7 @@ def extract(meta, harness_path, workdir, native=False):
     ipath = os.path.join(workdir, 'tu.i')
     cmd = preprocess(wrapper, ipath, extra, native)
     src = open(ipath).read()
-    roots = set(meta.get('roots', []))
+    roots = set(meta.get('roots', [])) | {'__verif_trap', '__verif_event', '__verif_nd'}
     if meta.get('enforce'):
         roots.add(meta['enforce'])
     stops = set(meta.get('replace', [])) | set(meta.get('stops', []))
@@ -501,7 +517,9 @@ def extract(meta, harness_path, workdir, native=False):
     sliced, fired['R-ginit'] = rule_ginit(sliced)
     if not native:
         sliced, fired['R-ptr'] = rule_ptr(sliced)
-    sliced, fired['R-loop'], loopcounts = rule_loops(sliced, meta.get('loops', {}) if not native else {})
+    sliced, loopdefs = collect_loopdefs(sliced)
+    alloops = dict(meta.get('loops', {})); alloops.update(loopdefs)
+    sliced, fired['R-loop'], loopcounts = rule_loops(sliced, alloops if not native else {})
     # leftover block literals in kept code are out of reach
     left = len(re.findall(r'\^\s*[({]', sliced)) if not native else 0
     outp = os.path.join(workdir, 'extracted.c')
@@ -509,7 +527,7 @@ def extract(meta, harness_path, workdir, native=False):
     hashes = {k: hashlib.sha256(v.encode()).hexdigest()[:16] for k, v in kept.items()}
     return dict(text_path=outp, fired=fired, kept=sorted(kept), kept_hashes=hashes, harness_funcs=hnames,
                 overridden=overridden, ens_names=names, leftover_block_literals=left,
-                loopcounts=loopcounts, pp_cmd=' '.join(cmd))
+                loopcounts=loopcounts, n_loop_contracts=len(alloops), pp_cmd=' '.join(cmd))
 
 if __name__ == '__main__':
     meta = json.loads(sys.argv[1])
